@@ -15,6 +15,10 @@
 (*                           the group element applied to the base         *)
 (*   base_value, transformed_value   outputs of Mean Sum Constant          *)
 (*                           TrimmedMean Krum equal the specification's    *)
+(*   padded_zero_columns_updated   PadZero: the outputs are logged on the  *)
+(*                           materialised columns (E.padpos, compared with *)
+(*                           PadPosSeq) plus the number of non-zero        *)
+(*                           entries on the padded columns: it must be 0   *)
 (*   law_c08_c10 / law_c09   the logged outputs satisfy the law themselves *)
 (*   classification          an aggregator was compared although the model *)
 (*                           excludes the instance (rank / tie), or was    *)
@@ -30,7 +34,7 @@ Episodes == JsonDeserialize(IOEnv.TRACE_FILE)
 NEp      == Len(Episodes)
 
 VARIABLES ep, pos, stage, nAcc, nRej
-tvars == <<base, cls, rp, Q, den, J, P, W, c1, c2, ca, cb, steps, ep, pos, stage, nAcc, nRej>>
+tvars == <<base, cls, rp, Q, den, J, P, W, c1, c2, ca, cb, pad, steps, ep, pos, stage, nAcc, nRej>>
 
 E == Episodes[ep]
 
@@ -38,14 +42,14 @@ Dummy == [id |-> 0, m |-> 1, n |-> 1, J |-> <<<<0>>>>, P |-> <<1>>, W |-> <<1>>]
 
 TInit == /\ base = Dummy /\ cls = SymClassify(Dummy.J) /\ rp = <<1>> /\ Q = <<<<1>>>> /\ den = 1
          /\ J = Dummy.J /\ P = Dummy.P /\ W = Dummy.W /\ c1 = <<1>> /\ c2 = <<1>> /\ ca = 1 /\ cb = 1
-         /\ steps = 0 /\ ep = 1 /\ pos = 1 /\ stage = "load" /\ nAcc = 0 /\ nRej = 0
+         /\ pad = NoPad /\ steps = 0 /\ ep = 1 /\ pos = 1 /\ stage = "load" /\ nAcc = 0 /\ nRej = 0
 
 Load == /\ ep <= NEp /\ stage = "load"
         /\ base' = [id |-> E.ep, m |-> E.m, n |-> E.n, J |-> E.J0, P |-> E.P0, W |-> E.W0]
         /\ cls' = SymClassify(E.J0)
         /\ rp' = SymIdPerm(E.m) /\ Q' = Identity(E.n) /\ den' = 1
         /\ J' = E.J0 /\ P' = E.P0 /\ W' = E.W0
-        /\ c1' = Ones(E.m) /\ c2' = Ones(E.m) /\ ca' = 1 /\ cb' = 1 /\ steps' = 0
+        /\ c1' = Ones(E.m) /\ c2' = Ones(E.m) /\ ca' = 1 /\ cb' = 1 /\ pad' = NoPad /\ steps' = 0
         /\ pos' = 1 /\ stage' = "gens"
         /\ UNCHANGED <<ep, nAcc, nRej>>
 
@@ -61,6 +65,7 @@ GenAction(g) ==
       [] g.g = "negcol"   -> NegCol(g.i)
       [] g.g = "hadamard" -> Hadamard(g.q)
       [] g.g = "zero"     -> AppendZero
+      [] g.g = "pad"      -> PadZero(g.i, g.lay)       \* g.i = the logged COUNT (any 1..PadMax)
       [] g.g = "bumpc1"   -> BumpC1(g.i)
       [] g.g = "bumpc2"   -> BumpC2(g.i)
       [] g.g = "bumpa"    -> BumpA
@@ -75,6 +80,7 @@ GenGuard(g) ==
                              /\ g.q[1] < g.q[2] /\ g.q[2] < g.q[3] /\ g.q[3] < g.q[4]
                              /\ NormQJ(ColHadM(Q, g.q), ColHadM(J, g.q), 2 * den)[3] <= MaxDen
       [] g.g = "zero"     -> N < N0 + MaxZero
+      [] g.g = "pad"      -> g.i \in 1..PadMax /\ g.lay \in PadLays
       [] g.g = "bumpc1"   -> g.i \in 1..M /\ c1[g.i] < CMax
       [] g.g = "bumpc2"   -> g.i \in 1..M /\ c2[g.i] < CMax
       [] g.g = "bumpa"    -> ca < ABMax
@@ -82,23 +88,24 @@ GenGuard(g) ==
       [] OTHER            -> FALSE
 
 TGen == /\ ep <= NEp /\ stage = "gens" /\ pos <= Len(E.gens)
-        /\ GenGuard(E.gens[pos]) /\ steps < MaxSteps
+        /\ GenGuard(E.gens[pos]) /\ steps < MaxSteps /\ pad.cnt = 0
         /\ GenAction(E.gens[pos])
         /\ pos' = pos + 1
         /\ UNCHANGED <<ep, stage, nAcc, nRej>>
 
 TGenReject ==
         /\ ep <= NEp /\ stage = "gens" /\ pos <= Len(E.gens)
-        /\ ~(GenGuard(E.gens[pos]) /\ steps < MaxSteps)
+        /\ ~(GenGuard(E.gens[pos]) /\ steps < MaxSteps /\ pad.cnt = 0)
         /\ PrintT(<<"REJECT", ToJson([ep |-> E.ep, at |-> pos, clause |-> "generator_not_enabled", agg |-> E.gens[pos].g])>>)
         /\ NextEpisode(FALSE)
-        /\ UNCHANGED <<base, cls, rp, Q, den, J, P, W, c1, c2, ca, cb, steps>>
+        /\ UNCHANGED <<base, cls, rp, Q, den, J, P, W, c1, c2, ca, cb, pad, steps>>
 
 -----------------------------------------------------------------------------
 (* clauses evaluated when the word has been consumed                       *)
 
 C_Instance == /\ E.J = J /\ E.den = den /\ E.P = P /\ E.W = W
               /\ E.c1 = c1 /\ E.c2 = c2 /\ E.a = ca /\ E.b = cb
+              /\ E.pad = pad /\ E.padpos = PadPosSeq       \* where the driver put the materialised columns
 
 KCfgSeq == SymSeqOf({fk[1] * 10 + fk[2] : fk \in KrumCfgs})
 NTM     == ((M - 1) \div 2) + 1
@@ -166,6 +173,7 @@ Failing ==
     IF ~C_Instance THEN [clause |-> "transformed_instance", agg |-> "none"]
     ELSE IF ~C_Base THEN [clause |-> "base_value", agg |-> "exact"]
     ELSE IF ~C_Trans THEN [clause |-> "transformed_value", agg |-> "exact"]
+    ELSE IF E.padnz # 0 THEN [clause |-> "padded_zero_columns_updated", agg |-> "exact"]
     ELSE IF E.kind = "sym" /\ ~C_LawSym THEN [clause |-> "law_c08_c10", agg |-> "exact"]
     ELSE IF E.kind = "scale" /\ ~C_LawScale THEN [clause |-> "law_c09", agg |-> "exact"]
     ELSE IF ~C_PyClass THEN [clause |-> "classification_differs_from_model", agg |-> "none"]
@@ -178,12 +186,12 @@ TFinish == /\ ep <= NEp /\ stage = "gens" /\ pos = Len(E.gens) + 1
                  /\ (f.clause # "none" =>
                         PrintT(<<"REJECT", ToJson([ep |-> E.ep, at |-> pos, clause |-> f.clause, agg |-> f.agg])>>))
                  /\ NextEpisode(f.clause = "none")
-           /\ UNCHANGED <<base, cls, rp, Q, den, J, P, W, c1, c2, ca, cb, steps>>
+           /\ UNCHANGED <<base, cls, rp, Q, den, J, P, W, c1, c2, ca, cb, pad, steps>>
 
 TDone == /\ ep = NEp + 1 /\ stage = "load"
          /\ PrintT(<<"SUMMARY", ToJson([episodes |-> NEp, accepted |-> nAcc, rejected |-> nRej])>>)
          /\ stage' = "end"
-         /\ UNCHANGED <<base, cls, rp, Q, den, J, P, W, c1, c2, ca, cb, steps, ep, pos, nAcc, nRej>>
+         /\ UNCHANGED <<base, cls, rp, Q, den, J, P, W, c1, c2, ca, cb, pad, steps, ep, pos, nAcc, nRej>>
 
 TNext == Load \/ TGen \/ TGenReject \/ TFinish \/ TDone
 TraceSpec == TInit /\ [][TNext]_tvars
